@@ -269,10 +269,10 @@ func receiptFor(toks []xml.Token) string {
 	return ""
 }
 
-// expectedOpen: the <open/> is for the session (from peerJID, sid s1) the
-// harness's Expect calls wait for.
+// expectedOpen: the <open/> (or <close/>) is for the session (from peerJID, sid
+// s1) the harness's Expect calls wait for (the local Write is on).
 func (w *world) expectedOpen(start *xml.StartElement) bool {
-	if start.Name.Local != "open" {
+	if start.Name.Local != "open" && start.Name.Local != "close" {
 		return false
 	}
 	for _, a := range start.Attr {
